@@ -9,7 +9,7 @@ import gen as G
 import verde as vd
 
 ID = "C15"
-TRANSLATED = "distmask"  # Gen/Neighbors.lean (KNeighbors.predict after the tree query) and Gen/DistMask.lean (distance_mask, over the reals) are regenerated from /repo and bridged to the model in Props/C15.lean
+TRANSLATED = "distmask"  # Gen/Neighbors.lean (KNeighbors.predict after the tree query), Gen/DistMask.lean (distance_mask, over the reals) and Gen/Distances.lean (median_distance, KNeighbors.fit) are regenerated from /repo and bridged to the model in Props/C15.lean
 FILES = ["verde/neighbors.py", "verde/distances.py", "verde/mask.py", "verde/utils.py"]
 RULE = ("corpus (3-4-5 triangles with maxdist exactly on the boundary, k = n, single point) + seeded clouds in general position: KNeighbors for every "
         "k in 1..n (sampled) with reductions mean/median/min/max and 1-D/2-D query arrays, median_distance for k_nearest 1..n-1, distance_mask in array and "
